@@ -94,6 +94,7 @@ func runC11(c *Ctx) {
 	c.rule("D4", "converters normalise context errors first; a pass-through case for ErrTimeout/ErrCancelled precedes every re-classifying case", 5)
 	c.rule("D6", "deserialisation re-joins every element after the kind into the reason: loop from index 1, step one, unconditional append of the (trimmed) element", 1)
 	c.rule("D10", "WrapIfNotCommonError / WrapIfNotCommonErrorf: the branch that gives the result the kind of the cause is reached only where the target was found not to be a cancellation or a deadline", 2)
+	c.rule("D11", "the filesystem and process converters are stable when applied twice: no case that goes by the error's description (here or in a converter they delegate to) can be reached by an error that IsCommonError recognised", 2)
 	c.rule("D9", "serialisation: where the parsed kind is replaced by the error Unwrap() returned, the description of that error is compared with the parsed text and the reason is rewritten accordingly (what the wrapped error already says is not said twice)", 1)
 	c.rule("D7", "writer and reader of the text form agree on the separators: kind/reason (constructors vs deserialiser) and joined errors (marshaller, errors.Join vs deserialiser); every line of a joined error is read, whatever its length", 3)
 	c.rule("D8", "the filesystem converter maps a backend condition to one kind whatever the path: no case that recognises a condition by the error's text (which embeds the caller's path) is evaluated before a case that recognises another condition structurally; the timeout case recognises Timeout() errors (os.IsTimeout); no converter that goes by the text is applied before the table; the same order in the process converter", 4)
@@ -775,6 +776,99 @@ var _ = types.Universe
 func (c *Ctx) c11ConverterTables() {
 	c.c11ConverterTable("filesystem", "ConvertFileSystemError", true)
 	c.c11ConverterTable("proc", "ConvertProcessError", false)
+	c.c11ConverterStable("filesystem", "ConvertFileSystemError")
+	c.c11ConverterStable("proc", "ConvertProcessError")
+}
+
+// c11ConverterStable (D11). The converters are applied by helpers that call one another, so an error goes through them more
+// than once. What the first pass returns is an error of a library kind whose description embeds the backend's text (with
+// the caller's path or command name); if a second pass can reach a case that goes by the description, that text decides
+// the kind anew. Decided on SSA: with the 'not a common error' edge of every IsCommonError(err) test removed, no call of
+// CorrespondTo — direct, or inside a module function the converter hands the error to — is reachable from the entry.
+func (c *Ctx) c11ConverterStable(pkgRel, fnName string) {
+	f := c.fn(pkgRel, fnName)
+	if f == nil {
+		return
+	}
+	key := pkgRel + "." + fnName + "/stable-when-applied-twice"
+	textual := func(g *ssa.Function) bool {
+		found := false
+		allInstrs(g, func(in ssa.Instruction) {
+			if cc := callCommon(in); cc != nil && strings.HasSuffix(calleeFull(cc), "commonerrors.CorrespondTo") {
+				found = true
+			}
+		})
+		return found
+	}
+	isTextual := func(in ssa.Instruction) bool {
+		cc := callCommon(in)
+		if cc == nil {
+			return false
+		}
+		if strings.HasSuffix(calleeFull(cc), "commonerrors.CorrespondTo") {
+			return true
+		}
+		g := staticCallee(cc)
+		return g != nil && inModule(g) && len(g.Blocks) > 0 && textual(g)
+	}
+	gates := 0
+	isGateCall := func(v ssa.Value) bool {
+		cl, isCall := v.(*ssa.Call)
+		return isCall && strings.HasSuffix(calleeFull(&cl.Call), "commonerrors.IsCommonError")
+	}
+	// the value tested is IsCommonError(err), or `err != nil && IsCommonError(err)` kept in a variable
+	isGate := func(v ssa.Value) bool {
+		if isGateCall(v) {
+			return true
+		}
+		if phi, ok := v.(*ssa.Phi); ok {
+			n := 0
+			for _, e := range phi.Edges {
+				if b, isB := constBool(e); isB && !b {
+					continue
+				}
+				if !isGateCall(e) {
+					return false
+				}
+				n++
+			}
+			return n > 0
+		}
+		return false
+	}
+	prune := func(b *ssa.BasicBlock, k int) bool {
+		ifi, ok := b.Instrs[len(b.Instrs)-1].(*ssa.If)
+		if !ok {
+			return false
+		}
+		// a nil error is not an error already converted
+		if x, nilSucc, isNil := nilTest(ifi); isNil && isErrorType(x.Type()) {
+			return k == nilSucc
+		}
+		v, side := boolTest(ifi)
+		if v == nil || !isGate(v) {
+			return false
+		}
+		// side: the successor index on which v is true
+		return k != side
+	}
+	for _, b := range f.Blocks {
+		if ifi, ok := b.Instrs[len(b.Instrs)-1].(*ssa.If); ok {
+			if v, _ := boolTest(ifi); v != nil && isGate(v) {
+				gates++
+			}
+		}
+	}
+	hit := pathPruned(f, nil, func(ssa.Instruction) bool { return false }, isTextual, prune)
+	why := ""
+	if hit != nil {
+		why = "the case at " + c.ipos(hit) + " goes by the description of the error and can be reached by an error that is already of a library kind"
+		if gates == 0 {
+			why += " (the converter never asks IsCommonError)"
+		}
+		why += ": applied twice — the helpers are nested — the converter lets the path or the command name embedded in the description decide the kind (ENOENT on \"/tmp/file exists.txt\" becomes 'already exists')"
+	}
+	c.check(hit == nil, "D11", key, c.pos(f.Pos()), "cases that go by the description are out of reach of an error already converted", why)
 }
 
 // c11ConverterTable: the order obligation of D8 on one converter; for the filesystem converter also what is applied before
